@@ -72,7 +72,8 @@ def _one(args):
 
 def _fault(args):
     """Output-fault cases: returns list of (desc, ok, detail)."""
-    path, target, exe, wd = args
+    path, target, exe, wd = args[:4]
+    every = len(args) > 4 and args[4]
     out = []
     base = common.cproc(exe, path, target)
     if base.status != 0 or not base.out:
@@ -87,7 +88,7 @@ def _fault(args):
     out.append(('closed', p.returncode > 0, 'status %d' % p.returncode, len(base.out)))
     # k-th write fails
     nw = max(1, (len(base.out) + 4095) // 4096)
-    ks = sorted(set([1, 2, nw, max(1, nw // 2)]))
+    ks = sorted(set([1, 2, nw, max(1, nw // 2)])) if not every else list(range(1, nw + 1))
     for k in ks:
         if k > nw:
             continue
@@ -125,6 +126,20 @@ def inputs(tier, wd, rng):
         p = os.path.join(odir, 'o%d.c' % i)
         common.write(p, gen_odd.generate(random.Random(rng.getrandbits(48))))
         items.append(('odd:%d' % i, p))
+    # hand-written units (types completed after the object's declaration, over-aligned statics, ...) and the witnesses of all findings
+    FIXED = ['struct rec cache; struct rec *slotp = &cache; struct rec { long key; char tag; };', 'union u2 slot; union u2 { double d; char c; }; void *ps = &slot;',
+             'static struct late sl; struct late { _Alignas(32) char c; }; void *pl = &sl;', 'struct fw gfw[]; struct fw { short s; }; struct fw gfw[3];', 'int tarr[]; int *ptarr = tarr; int tarr[5];',
+             'struct inc; extern struct inc einc; struct inc *pinc = &einc; struct inc { char c[7]; }; struct inc einc = { "abc" };',
+             'struct e2 { long l; }; static struct e2 t1, t2; static struct e2 t1 = { 5 }; void *pt[] = { &t1, &t2 };',
+             '_Thread_local struct tlt { int a; long b; } tv1; static _Thread_local struct tlt tv2 = { 1, 2 }; long rd(void) { return tv1.b + tv2.a; }']
+    fdir = os.path.join(wd, 'fixed')
+    os.makedirs(fdir, exist_ok=True)
+    for i, t in enumerate(FIXED):
+        items.append(('corpus:fixed%d' % i, common.write(os.path.join(fdir, 'fixed%d.c' % i), t + '\n')))
+    for i, f in enumerate(common.load_findings()):
+        wtxt = f.get('witness')
+        if wtxt and not wtxt.startswith('cproc ') and len(wtxt) < 5000 and not f['id'].startswith('K05'):
+            items.append(('corpus:wit%d' % i, common.write(os.path.join(fdir, 'wit%d.c' % i), (wtxt + '\n').encode('latin-1', 'replace'))))
     # mutated corpus/suite files that still compile: odd-but-accepted shapes
     seeds = [p for _, p in items if not _.startswith(('gen:', 'odd:'))] + [p for _, p in items if _.startswith('gen:')][:10]
     nm = 8000 if tier == 'quick' else 150000
@@ -201,7 +216,11 @@ def run(tier):
     fsrc = [p for n, p in items if n.startswith(('corpus:', 'suite:'))]
     rng.shuffle(fsrc)
     fsrc = fsrc[:12 if tier == 'quick' else 150]
-    fres = common.pmap(_fault, [(p, 'x86_64-sysv', exe, wd) for p in fsrc])
+    # one output of many stdio buffers with a single failing write at every position
+    bigp = os.path.join(wd, 'bigout.c')
+    common.write(bigp, ''.join('int f%d(int a, int b) { return a * %d + b; }\n' % (i, i) for i in range(400)))
+    fsrc.append(bigp)
+    fres = common.pmap(_fault, [(p, 'x86_64-sysv', exe, wd, p == bigp) for p in fsrc])
     nf = 0
     for p, lst in zip(fsrc, fres):
         for desc, ok, detail, n in lst:
